@@ -24,6 +24,20 @@ theorem evpKey_ok (md5 : Bytes → Bytes) (hmd : Md5Len md5) (secret salt : Byte
     keyOK (evpKey md5 secret salt) = true := by
   simp [keyOK, evpKey_length md5 hmd]
 
+/-- md5 yields bytes -/
+def Md5Bytes (md5 : Bytes → Bytes) : Prop := ∀ x, IsBytes (md5 x)
+
+theorem evp_isBytes (md5 : Bytes → Bytes) (hb : Md5Bytes md5) (secret salt : Bytes) :
+    IsBytes (evp md5 secret salt) := by
+  unfold evp
+  exact isBytes_append.mpr ⟨isBytes_append.mpr ⟨hb _, hb _⟩, hb _⟩
+
+theorem evpKey_isBytes (md5 : Bytes → Bytes) (hb : Md5Bytes md5) (secret salt : Bytes) :
+    IsBytes (evpKey md5 secret salt) := isBytes_take 32 (evp_isBytes md5 hb secret salt)
+
+theorem evpIV_isBytes (md5 : Bytes → Bytes) (hb : Md5Bytes md5) (secret salt : Bytes) :
+    IsBytes (evpIV md5 secret salt) := isBytes_drop 32 (evp_isBytes md5 hb secret salt)
+
 theorem cred_slices (md5 : Bytes → Bytes) (hmd : Md5Len md5) (secret salt : Bytes) :
     sliceTo (evp md5 secret salt) keyLen = some (evpKey md5 secret salt) ∧
     sliceFrom (evp md5 secret salt) keyLen = some (evpIV md5 secret salt) := by
@@ -31,6 +45,11 @@ theorem cred_slices (md5 : Bytes → Bytes) (hmd : Md5Len md5) (secret salt : By
   exact ⟨sliceTo_nat _ 32 (by omega), sliceFrom_nat _ 32 (by omega)⟩
 
 theorem header_length : fixedSaltHeader.length = 8 := by decide
+
+theorem header_isBytes : IsBytes fixedSaltHeader := by
+  intro y hy
+  simp only [fixedSaltHeader, List.mem_cons, List.not_mem_nil, or_false] at hy
+  omega
 
 /-- building `|Salted__|salt|…body…|` in a zeroed buffer -/
 theorem header_build (n : Nat) (salt : Bytes) (hs : salt.length = 8) :
@@ -124,7 +143,7 @@ theorem saltBySecretCBCEncrypt_spec (P : Prims) (hmd : Md5Len P.md5) (salt pt se
       rw [hb1]
 
 theorem saltBySecretCBCDecrypt_total (P : Prims) (hmd : Md5Len P.md5)
-    (hD : ∀ k x, x.length = 16 → (P.C.D k x).length = 16)
+    (hD : ∀ k, keyOK k = true → ∀ x, x.length = 16 → (P.C.D k x).length = 16)
     (ct secret : Bytes) (reuse : Bool) :
     saltBySecretCBCDecrypt P ct secret reuse ≠ .panic := by
   unfold saltBySecretCBCDecrypt
@@ -156,7 +175,7 @@ theorem saltBySecretCBCDecrypt_total (P : Prims) (hmd : Md5Len P.md5)
         · rw [← hlay] at hd; cases hd
       obtain ⟨hnp, hiff⟩ := (main_cbc_decrypt_rejects P.C lay (ct.drop 16)
         (evpKey P.md5 secret ((ct.take 16).drop 8)) (evpIV P.md5 secret ((ct.take 16).drop 8))).2.2
-        (evpKey_ok P.md5 hmd _ _) (evpIV_length P.md5 hmd _ _) hbl.1 hbl.2 hlayl (hD _)
+        (evpKey_ok P.md5 hmd _ _) (evpIV_length P.md5 hmd _ _) hbl.1 hbl.2 hlayl (hD _ (evpKey_ok P.md5 hmd _ _))
       cases hr : aesCBCDecrypt P.C lay (ct.drop 16) (evpKey P.md5 secret ((ct.take 16).drop 8))
           (evpIV P.md5 secret ((ct.take 16).drop 8)) with
       | panic => exact absurd hr hnp
@@ -167,7 +186,7 @@ theorem saltBySecretCBCDecrypt_total (P : Prims) (hmd : Md5Len P.md5)
         obtain ⟨hd, p, hp1, hp16, hn, _⟩ := (hiff n d).1 hr
         have hdl : d.length = (ct.drop 16).length := by
           rw [hd]
-          exact cbcDecrypt_length _ (hD _) ((ct.drop 16).length / 16) _ _
+          exact cbcDecrypt_length _ (hD _ (evpKey_ok P.md5 hmd _ _)) ((ct.drop 16).length / 16) _ _
             (evpIV_length P.md5 hmd _ _) (by omega)
         have : sliceTo d n = some (d.take n.toNat) := by
           unfold sliceTo
@@ -191,7 +210,7 @@ theorem evpNonce_slice (md5 : Bytes → Bytes) (hmd : Md5Len md5) (secret salt :
   rw [h] at this; simp at this
 
 theorem saltBySecretGCMEncrypt_spec (P : Prims) (hmd : Md5Len P.md5)
-    (hseal : ∀ k n p a, (P.A.sealF k n p a).length = p.length + 16)
+    (hseal : ∀ k, keyOK k = true → ∀ n p a, (P.A.sealF k n p a).length = p.length + 16)
     (salt pt secret ad : Bytes) (hs : salt.length = 8) :
     saltBySecretGCMEncrypt P salt pt secret ad =
       .ok (fixedSaltHeader ++ salt ++
@@ -221,13 +240,13 @@ theorem saltBySecretGCMEncrypt_spec (P : Prims) (hmd : Md5Len P.md5)
       injection hb with hb
       injection hb with hb1 hb2
       subst hb2
-      rw [(main_gcm_lens P.A b pt _ _ ad hseal (evpKey_ok P.md5 hmd secret salt) hne hbl).2.2]
+      rw [(main_gcm_lens P.A b pt _ _ ad (hseal _ (evpKey_ok P.md5 hmd secret salt)) (evpKey_ok P.md5 hmd secret salt) hne hbl).2.2]
       simp only []
       rw [hb1]
 
 /-- what `SaltBySecretGCMDecrypt` answers on an input with a well-formed header -/
 theorem saltBySecretGCMDecrypt_eq (P : Prims) (hmd : Md5Len P.md5)
-    (hopenlen : ∀ k n c a p, P.A.openF k n c a = some p → c.length = p.length + 16)
+    (hopenlen : ∀ k, keyOK k = true → ∀ n c a p, P.A.openF k n c a = some p → c.length = p.length + 16)
     (ct secret ad : Bytes) (reuse : Bool) (h16 : 16 ≤ ct.length)
     (hmagic : ct.take 8 = fixedSaltHeader) :
     saltBySecretGCMDecrypt P ct secret ad reuse =
@@ -263,7 +282,7 @@ theorem saltBySecretGCMDecrypt_eq (P : Prims) (hmd : Md5Len P.md5)
   | none => rfl
   | some p =>
     simp only []
-    have hpl := hopenlen _ _ _ _ _ ho
+    have hpl := hopenlen _ (evpKey_ok P.md5 hmd _ _) _ _ _ _ ho
     generalize hdst : (if reuse = true then ct.drop 16 else List.replicate (ct.drop 16).length 0) = dst
     have hdl : dst.length = (ct.drop 16).length := by
       rw [← hdst]; cases reuse <;> simp
@@ -282,7 +301,7 @@ theorem saltBySecretGCMDecrypt_eq (P : Prims) (hmd : Md5Len P.md5)
     rw [this]
 
 theorem saltBySecretGCMDecrypt_total (P : Prims) (hmd : Md5Len P.md5)
-    (hopenlen : ∀ k n c a p, P.A.openF k n c a = some p → c.length = p.length + 16)
+    (hopenlen : ∀ k, keyOK k = true → ∀ n c a p, P.A.openF k n c a = some p → c.length = p.length + 16)
     (ct secret ad : Bytes) (reuse : Bool) :
     saltBySecretGCMDecrypt P ct secret ad reuse ≠ .panic := by
   by_cases h16 : 16 ≤ ct.length
